@@ -412,6 +412,8 @@ def hook_event(line):
     h = json.loads(line)
     if h["post"] is None and not h["panic"]:
         return None     # the call returned from a place without a hook: nothing to judge
+    if h["op"] == "remove_dot_segments":
+        return None     # RFC 3986 5.2.4 as an outermost call: not a public operation (resolve is recorded as a whole)
     ty = h["ty"]
     fam = "uri" if "::uri::" in ty else "iri"
     last = ty.split("::")[-1]
